@@ -35,6 +35,22 @@ D = {
  'C08-dequeue-hoisted-head': ('C08', 'dequeue hoists `val`/emptiness test out of the retry loop', 'send-in-send or recv-in-recv at the instruction between load and CAS: both own one index, recv panics "Full slot with nothing in it"'),
  'C10-add-signal-lock-gap': ('C10', 'Handle::add_signal checks and records under two separate lock acquisitions, registering unlocked in between', 'two overlapping add_signal(S) on clones of one handle, then one delivery of S: two actions feed one channel, two records per delivery'),
  'C10-recv-enqueue-before-take': ('C10', 'Channel::recv returns the slot to `empty` before taking the value out of it', 'buffer full (5 records) and a delivery of the same signal between the enqueue and the take: the newest record overwrites the oldest, later panic'),
+ 'C11-empty-batch-pending': ('C11', 'poll_signal returns Pending at once when the fresh batch after an "available" answer is empty', 'close() (or a signal picked up by the old scan) whose byte is consumed by the callback: Pending comes back with the last answer "available", nothing armed'),
+ 'C11-closed-check-after-callback': ('C11', 'poll_pending consults the (blocking) callback first and looks at the closed flag afterwards', 'close(); wait(); wait()  - or close(); pending(); wait(): the second blocking read has no byte left'),
+ 'C09-wake-coalescing-flag': ('C09', 'a `notified` flag lets the action write its wake-up byte only on a false->true flip; pending() clears it before flush()', 'a delivery between the clear and the recv of flush(): the flag stays true with an empty pipe, every later delivery stores but never wakes'),
+ 'C09-init-after-register': ('C09', 'PendingSignals::add_signal prepares the exfiltrator slot only after the registration succeeded', 'the added signal delivered between the action becoming visible and init (WithRawSiginfo/WithOrigin): the record is dropped, the wake-up is written'),
+ 'C02-id-handed-back': ('C02', 'unregister of the most recently issued id decrements next_id', 'register A; unregister A; register C (same signal); unregister(id_a) again removes C'),
+ 'C02-barrier-marks-other-slot': ('C02', 'write_barrier marks the other slot as drained after the generation flip', 'a delivery stalled between its generation load and its increment across one write, then a second write while it runs actions'),
+ 'C05-id-handed-back': ('C05', 'unregister rolls next_id back when the removed action carries the newest id', 'a = register; unregister(a); b = register (b == a); unregister(a) again returns true and removes b'),
+ 'C05-inherit-prev-flags': ('C05', 'Slot::new ORs the previous handler\'s sa_flags / sa_mask into the library\'s sigaction', 'a pre-existing foreign handler installed with SA_RESETHAND, take-over, one delivery: the disposition falls back to SIG_DFL'),
+ 'C13-early-assert-leaks-fd': ('C13', 'register_raw asserts !FORBIDDEN before anything owns the raw descriptor', 'a forbidden signal with catch_unwind: the descriptor is never closed'),
+ 'C13-drop-restores-blocking': ('C13', 'WakeFd remembers the original file status flags and restores them on drop', 'two registrations sharing one pipe description (dup), the older removed, then a delivery on a full pipe: write blocks in the handler'),
+ 'C14-forbidden-check-in-vacant-branch': ('C14', 'the FORBIDDEN assertion runs only when the signal has no slot yet', 'an unchecked registration of ILL/FPE/SEGV first, then any checked entry point for the same number'),
+ 'C14-early-assert-leaks-pipe': ('C14', 'pipe::register_raw (non-socket branch) asserts !FORBIDDEN before the WakeFd guard exists', 'a forbidden signal with a pipe / FIFO / eventfd descriptor and a look at the descriptor table afterwards'),
+ 'C15-exit-thread-only': ('C15', 'low_level::exit issues the raw SYS_exit syscall before _exit', 'a process with at least two threads when the armed shutdown fires: only the receiving thread ends'),
+ 'C15-skip-actions-when-ignored': ('C15', 'the handler returns after chaining when the previous disposition was SIG_IGN', 'the signal was ignored when its first action was registered (nohup, background job): no flag is ever set'),
+ 'C17-nonpositive-code-is-user': ('C17', 'extract.c classifies every unknown si_code <= 0 as User', 'SI_TIMER / SI_ASYNCIO / SI_SIGIO deliveries: cause Sent(User) and union bytes read as a process'),
+ 'C17-zero-process-dropped': ('C17', 'the macOS "pid 0 uid 0 means no process" heuristic applied on every OS', 'a root sender outside the PID namespace (or a synthetic record) with pid 0 and uid 0'),
  'C18-unregister-read-then-write': ('C18', 'unregister looks the id up under a read guard that is still held while write() blocks', 'two mutators: one holds the mutex before its barrier\'s first check, the other\'s unregister has incremented a reader slot and blocks on the mutex'),
 }
 for name, (prop, change, needs) in D.items():
